@@ -277,8 +277,8 @@ def gen_spec(rng, *, pool=None, n_base=None, max_len=4, labels=None, with_m=None
 
 # besides letters with unusual case mappings: letters without any case (CJK, kana, Thai, Hebrew, Arabic) - a mask changes nothing, but every (word, mask)
 # combination is still one guess
-ODD_ALPHA = {1: ['ß', 'ŉ', 'ǰ', 'ﬁ', 'ΐ', 'ı', 'ſ', 'ǆ', '中', 'あ', 'ש'], 2: ['ßa', 'aß', 'ŉo', 'ﬂy', 'ǆe', '中文', '日本', 'שם'], 3: ['fuß', 'ßen', 'aŉb', 'ǰaz', 'ﬁre', 'ǆem', 'ไทย', 'パスワ', 'سلا'],
-             4: ['weiß', 'fußb', 'ßßßß', 'oﬃc', 'ßeta', '中文密码', 'שלום'], 5: ['straß', 'große', 'maßes', 'ǆungl', 'こんにちは', 'مرحبا']}
+ODD_ALPHA = {1: ['ß', 'ŉ', 'ǰ', 'ﬁ', 'ΐ', 'ı', 'ſ', 'ǆ', '中', 'あ', 'ש', 'ÿ', 'µ'], 2: ['ßa', 'aß', 'ŉo', 'ﬂy', 'ǆe', '中文', '日本', 'שם', 'ÿa', 'µm'], 3: ['fuß', 'ßen', 'aŉb', 'ǰaz', 'ﬁre', 'ǆem', 'ไทย', 'パスワ', 'سلا', 'ÿes', 'µms'],
+             4: ['weiß', 'fußb', 'ßßßß', 'oﬃc', 'ßeta', '中文密码', 'שלום', 'ÿves', 'µsec'], 5: ['straß', 'große', 'maßes', 'ǆungl', 'こんにちは', 'مرحبا']}
 
 def add_odd_alpha(rng, spec, k=3):
     """Add alpha words with letters whose upper() is longer than one character, not reversible, or differs from title case (sharp s, n-apostrophe,
@@ -294,3 +294,39 @@ def add_odd_alpha(rng, spec, k=3):
                 rows.insert(gi + 1, [w, rows[gi][1]])
                 n_added += 1
     return n_added
+
+
+LEGACY = ['latin-1', 'cp1252', 'cp1251', 'iso-8859-7', 'cp437']
+
+def legacy_variant(rng, spec, enc=None):
+    """The same ruleset stored in a legacy single-byte encoding: values the code page cannot represent are dropped (at least one value per list is kept),
+    a few letters whose upper-case form lies OUTSIDE the code page are added to the alpha lists (y-diaeresis and the micro sign under latin-1, the micro sign
+    under cp1252 / cp1251 ...): the words are fine on disk, some of the guesses made from them are not representable in the encoding of the ruleset.
+    Returns False (spec untouched) when the OMEN model cannot be represented."""
+    enc = enc or rng.choice(LEGACY)
+    def ok(v):
+        try:
+            v.encode(enc); return True
+        except UnicodeEncodeError:
+            return False
+    om = spec.get('omen')
+    if om and not all(ok(g) for _, g in om['ip'] + om['cp']):
+        return False
+    for lab, rows in list(spec['terms'].items()):
+        keep = [r for r in rows if ok(r[0])]
+        if not keep:
+            n = int(lab[1:]) if lab[1:].isdigit() else 1
+            fill = {'A': 'a' * n, 'D': '1' * n, 'O': '!' * n, 'K': '1qaz2wsx'[:n], 'C': 'L' * n}.get(lab[0])
+            if fill is None:
+                return False
+            keep = [[fill, rows[0][1]]]
+        spec['terms'][lab] = keep
+    for lab, rows in spec['terms'].items():
+        if lab[0] == 'A' and lab[1:].isdigit() and int(lab[1:]) in ODD_ALPHA:
+            n = int(lab[1:])
+            for w in ODD_ALPHA[n]:
+                if len(w) == n and ok(w) and not ok(w.upper()) and w not in {v for v, _ in rows} and rng.random() < 0.8:
+                    gi = rng.randrange(len(rows))
+                    rows.insert(gi + 1, [w, rows[gi][1]])
+    spec['encoding'] = enc
+    return True
